@@ -319,10 +319,14 @@ func (n *selectNode) initSource() ([]aggregateNode, []*similarityNode, error) {
 	}
 
 	if isScanNode {
-		origScan.index = findIndexByFilteringField(origScan)
-		if !origScan.index.HasValue() {
-			// if we can not use index for filtering, try to use index for ordering
-			origScan.index = findIndexByOrderingField(origScan)
+		// A time-travel (versioned) select rebuilds the state of the document in a transient store
+		// that holds no secondary index entries: it can only be served from the primary index.
+		if !n.selectReq.Cid.HasValue() {
+			origScan.index = findIndexByFilteringField(origScan)
+			if !origScan.index.HasValue() {
+				// if we can not use index for filtering, try to use index for ordering
+				origScan.index = findIndexByOrderingField(origScan)
+			}
 		}
 		origScan.initFetcher(n.selectReq.Cid)
 	}
